@@ -225,5 +225,16 @@ def run(ctx):
         ctx.fail('C04.R5', f.key, f.site, f.message)
     if not _lifted:
         ctx.ok('C04.R5', 'kmip/services/server/engine.py', 'every state store / delete of the three lifecycle handlers is committed before the handler returns')
+    # ---------------- R6 (lifted from C05.R3) the mask the guards test is exactly the stored one
+    ctx.rule('C04.R6', 'the usage mask that the use guards test is exactly the set of flags whose bit is set in the stored integer (UsageMaskType.process_result_value, lifted from C05.R3): a decoder that widens the mask would let every use guard pass')
+    from ..report import Ctx as _LCtx2
+    from . import c05 as _c05
+    _sub2 = _LCtx2('C05', 'quick', ctx.src, 0)
+    _c05.run(_sub2)
+    _l2 = [f for f in _sub2.findings if f.rule == 'C05.R3' and 'UsageMaskType' in f.key]
+    for f in _l2:
+        ctx.fail('C04.R6', f.key, f.site, f.message)
+    if not _l2:
+        ctx.ok('C04.R6', 'kmip/pie/sqltypes.py UsageMaskType', 'bind ORs the flags, result enumerates exactly the set bits')
     ctx.not_decided += ['that the crypto engine uses no key other than those passed (C06 provenance)', 'state of objects after a server restart (stored column value, C05/C09)']
     ctx.assumptions += ['destroyed rows are deleted, so DESTROYED* are not live source states (C07.R3)', 'State and CryptographicUsageMask constants are compared by identity/equality as enum members']
